@@ -136,7 +136,9 @@ func specHasRepoFilter(q kit.QSpec) bool {
 	t := false
 	q.Atoms(func(a kit.QSpec) {
 		switch a.Op {
-		case "repo", "reporegex", "reposet", "repoids", "rawconfig", "meta", "branchesrepos":
+		case "repo", "reporegex", "reposet", "repoids", "rawconfig", "meta", "branchesrepos", "lang":
+			// "lang": a shard that holds no document of the language folds
+			// the atom to FALSE (TRUE under a negation)
 			t = true
 		}
 	})
@@ -165,6 +167,23 @@ func orWithFilterBranch(q kit.QSpec) bool {
 		}
 	}
 	return false
+}
+
+// singleBranchList returns the branch of a single-entry branch / repository
+// list at the query's top level (alone or in the top-level conjunction), the
+// shape the sharded searcher rewrites into a branch atom when the entry covers
+// every repository of the selected shards.
+func singleBranchList(q kit.QSpec) string {
+	kids := []kit.QSpec{q}
+	if q.Op == "and" {
+		kids = q.Kids
+	}
+	for _, k := range kids {
+		if k.Op == "branchesrepos" && len(k.BR) == 1 {
+			return k.BR[0].Branch
+		}
+	}
+	return ""
 }
 
 type fileSig struct {
@@ -253,6 +272,11 @@ func runC10(rec *kit.Recorder, c c10Case) error {
 				known := ""
 				if a.Language == b.Language && orWithFilterBranch(qs) {
 					known = "C10-or-with-repo-filter-drops-matches"
+				} else if br := singleBranchList(qs); br != "" && a.Language == b.Language && a.Ranges == b.Ranges &&
+					(a.Branches == br && strings.Contains(","+b.Branches+",", ","+br+",") || b.Branches == br && strings.Contains(","+a.Branches+",", ","+br+",")) {
+					// same file, same matches; one build reports only the
+					// list's branch, the other all branches of the document
+					known = "C10-single-branchesrepos-rewrite-narrows-branches"
 				}
 				return kit.FailKnown(known, "build-dependent", "query %s: %s differs: build A %+v, build B %+v", q, k, a, b)
 			}
